@@ -159,7 +159,7 @@ impl Prop for C12 {
         ]
     }
 
-    fn generate(rng: &mut Rng, _tier: Tier, _lane: &str) -> Case {
+    fn generate(rng: &mut Rng, _tier: Tier, lane: &str) -> Case {
         let mut alpha: Vec<&str> = vec!["a", "b", " "];
         if rng.random_bool(0.5) {
             alpha.push("ä");
@@ -182,7 +182,8 @@ impl Prop for C12 {
         if rng.random_bool(0.1) {
             alpha.retain(|c| *c != "b");
         }
-        let long = rng.random_range(0..100) < 3;
+        // (under Miri a pair of 40-symbol strings costs minutes: the interpreter lane keeps to 0-9)
+        let long = rng.random_range(0..100) < 3 && lane != "miri";
         if gen::scale() == 250 && rng.random_bool(0.3) {
             // one side beyond 2^16 symbols against a short one (either order)
             let n = rng.random_range(65_000..=70_000);
